@@ -357,10 +357,23 @@ func s3(p *core.Program, a *spec.Anchors, r *core.Report, writes, reads bool) {
 			}
 			return false
 		}
-		var freshRes func(v ssa.Value, depth int) bool
-		freshRes = func(v ssa.Value, depth int) bool {
+		// env: the arguments bound to the parameters of a helper whose returns are being examined (a pass-through
+		// helper such as withContext(result, f) returns what it was given)
+		type frame struct {
+			args   map[*ssa.Parameter]ssa.Value
+			parent *frame
+		}
+		var freshResIn func(v ssa.Value, env *frame, depth int) bool
+		freshRes := func(v ssa.Value, depth int) bool { return freshResIn(v, nil, depth) }
+		freshResIn = func(v ssa.Value, env *frame, depth int) bool {
+			freshRes := func(v ssa.Value, depth int) bool { return freshResIn(v, env, depth) }
 			if depth > 20 {
 				return false
+			}
+			if prm, ok := v.(*ssa.Parameter); ok && env != nil {
+				if arg, ok := env.args[prm]; ok {
+					return freshResIn(arg, env.parent, depth+1)
+				}
 			}
 			if c, isC := v.(*ssa.Const); isC && c.IsNil() {
 				return true
@@ -410,6 +423,28 @@ func s3(p *core.Program, a *spec.Anchors, r *core.Report, writes, reads bool) {
 						res := callee.Signature.Results()
 						return res.Len() >= 1 && isTensorT(res.At(0).Type())
 					}
+				}
+				// a module helper that hands back what it was given (or something fresh): look at its returns with the
+				// arguments of this call bound to its parameters
+				if callee := x.Call.StaticCallee(); callee != nil && callee.Blocks != nil && core.InModule(callee) && depth < 12 {
+					fr := &frame{args: map[*ssa.Parameter]ssa.Value{}, parent: env}
+					for i, prm := range callee.Params {
+						if i < len(x.Call.Args) {
+							fr.args[prm] = x.Call.Args[i]
+						}
+					}
+					any := false
+					for _, cb := range callee.Blocks {
+						for _, ci := range cb.Instrs {
+							if ret, ok := ci.(*ssa.Return); ok && len(ret.Results) >= 1 {
+								any = true
+								if !freshResIn(ret.Results[0], fr, depth+1) {
+									return false
+								}
+							}
+						}
+					}
+					return any
 				}
 			}
 			return false
